@@ -333,10 +333,18 @@ func signature(metric labels.Labels, without bool, grouping []string, keepOrigin
 func buildOutputSeries(seriesID uint64, highCardSeries, lowCardSeries model.Series, includeLabels []string) model.Series {
 	metric := highCardSeries.Metric
 	if len(includeLabels) > 0 {
-		lowCardLabels := labels.NewBuilder(lowCardSeries.Metric).
-			Keep(includeLabels...).
-			Labels(nil)
-		metric = append(metric, lowCardLabels...)
+		// Included labels are taken from the "one" side: set when present there,
+		// removed otherwise. The builder keeps the result sorted and never writes
+		// into the label slice of the input series.
+		lb := labels.NewBuilder(highCardSeries.Metric)
+		for _, ln := range includeLabels {
+			if v := lowCardSeries.Metric.Get(ln); v != "" {
+				lb.Set(ln, v)
+			} else {
+				lb.Del(ln)
+			}
+		}
+		metric = lb.Labels(nil)
 	}
 	return model.Series{ID: seriesID, Metric: metric}
 }
